@@ -245,6 +245,37 @@ def apply_cases(rng, n):
     return out
 
 
+def impl_apply_on(ps, case):
+    """apply through an EXISTING PatchSet object (histories); expectation computed statelessly"""
+    import pyhf
+    import jsonpatch
+    ws, doc, (kind, k) = case['ws'], case['doc'], case['key']
+    key = tuple(k) if kind == 'tuple' else k
+    before = copy.deepcopy(ws)
+    try:
+        res = ps.apply(ws, key)
+        got = ('ok', json.loads(json.dumps(dict(res))))
+    except Exception as e:
+        got = (core.exc_enum(e), None)
+    exp = None
+    for a, d in doc['metadata']['digests'].items():
+        if ref_digest(ws, a) != d:
+            exp = ('PatchSetVerificationError', None)
+            break
+    if exp is None:
+        sel = [p for p in doc['patches'] if (kind == 'name' and p['metadata']['name'] == k) or
+               (kind != 'name' and tuple(p['metadata']['values']) == tuple(k))]
+        if not sel:
+            exp = ('InvalidPatchLookup', None)
+        else:
+            try:
+                patched = jsonpatch.JsonPatch(sel[0]['patch']).apply(copy.deepcopy(ws))
+                exp = ('ok', json.loads(json.dumps(dict(pyhf.Workspace(patched)))))
+            except Exception as e:
+                exp = (core.exc_enum(e), None)
+    return got, exp, ws != before
+
+
 def impl_apply(case):
     import pyhf
     import jsonpatch
@@ -407,10 +438,11 @@ def run(ctx):
         for p in (ls if not ctx.quick else rng.sample(ls, min(len(ls), 4))):
             if p:
                 vcases.append((ws0, digs, corrupt(rng, ws0, p), 'corrupt' + '/'.join(map(str, p))))
-        # a digest wrong for only the last listed algorithm must fail too
-        digs2 = dict(digs)
-        digs2[algs[-1]] = '0' * len(digs[algs[-1]])
-        vcases.append((ws0, digs2, ws0, 'wrong-last-digest'))
+        # a digest wrong for exactly one listed algorithm (at any position) must fail
+        for pos, a in enumerate(algs):
+            digs2 = dict(digs)
+            digs2[a] = '0' * len(digs[a])
+            vcases.append((ws0, digs2, ws0, 'wrong-digest-at-%d-of-%d' % (pos, len(algs))))
     vimpl = [impl_verify(dg, copy.deepcopy(ws)) for ws0, dg, ws, _ in vcases]
     vhead = HEADER.replace('Open Scope string_scope.', 'Open Scope string_scope.')
     try:
@@ -450,6 +482,60 @@ def run(ctx):
             found_concrete = True
         sigs.add('a' + json.dumps([c['key'], [p['metadata']['name'] for p in c['doc']['patches']], c['wrong_digest']]))
 
+    # ---- correspondence 4: histories on ONE PatchSet and ONE workspace object: every call is decided by its current arguments ----
+    import pyhf
+    hstats = dict(histories=0, steps=0)
+    for c in apply_cases(rng, ctx.n(12, 120)):
+        if c['wrong_digest']:
+            continue
+        ws, doc = c['ws'], c['doc']
+        ps = pyhf.PatchSet(doc)
+        names = [p['metadata']['name'] for p in doc['patches']]
+        hist = []
+        leaf = ('observations', 0, 'data', 0)
+        orig = ws['observations'][0]['data'][0]
+        for step in range(rng.choice([4, 6, 8])):
+            op = rng.choice(['apply', 'apply', 'corrupt', 'restore', 'verify', 'lookup-miss'])
+            hstats['steps'] += 1
+            if op == 'corrupt':
+                ws['observations'][0]['data'][0] = orig + 1.0
+                hist.append(['corrupt'])
+                continue
+            if op == 'restore':
+                ws['observations'][0]['data'][0] = orig
+                hist.append(['restore'])
+                continue
+            good = ws['observations'][0]['data'][0] == orig
+            if op == 'lookup-miss':
+                try:
+                    ps['no-such-patch']
+                    r = 'returned'
+                except Exception as e:
+                    r = core.exc_enum(e)
+                exp = 'InvalidPatchLookup'
+            elif op == 'verify':
+                try:
+                    ps.verify(ws)
+                    r = 'ok'
+                except Exception as e:
+                    r = core.exc_enum(e)
+                exp = 'ok' if good else 'PatchSetVerificationError'
+            else:
+                key = rng.choice(names)
+                sub = dict(c, key=('name', key))
+                got, ex, mut = impl_apply_on(ps, sub)
+                r, exp = got[0], ex[0]
+                if got != ex:
+                    r = r + ':different-result'
+            hist.append([op, r])
+            if r != exp:
+                ctx.violation('history:%s:%s-vs-%s' % (op, r, exp), 'after the history %r, %s gives %s where the stateless rule gives %s' % (hist[:-1], op, r, exp),
+                              dict(kind='history', ws=c['ws'], doc=doc, history=hist, expected=exp, theorem='C17_verify_iff (apply/verify depend on their arguments only)'))
+                found_concrete = True
+                break
+        hstats['histories'] += 1
+        sigs.add('h' + json.dumps(hist))
+
     # ---- decide ----
     if tie and not found_concrete:
         if not search(ctx, tie):
@@ -458,7 +544,7 @@ def run(ctx):
                         rule='documents: 1-3 labels, 1-6 patches, names from a pool incl. internal words, value tuples from a pool with 1/1.0 '
                              'and strings, 7% wrong lengths; non-trivial = >=2 patches or an internal-word name; distinct by full metadata. '
                              'verify cases: key shuffles and single-leaf corruptions of random JSON trees; apply cases: real workspaces x op lists x keys',
-                        construct_stats=stats, verify_stats=vstats, apply_stats=astats,
+                        construct_stats=stats, verify_stats=vstats, apply_stats=astats, history_stats=hstats,
                         samples=[dict(doc_patches=[p['metadata'] for p in docs[0]['patches']], keys=keys[0][:5], impl=impl[0]),
                                  dict(verify_case=vcases[1][3], ws=vcases[1][2], impl=vimpl[1][0])])
 
